@@ -72,7 +72,9 @@ def gen_case(rng):
         ops.append(['call', assets[0], 999])
         if rng.random() < 0.3:
             late = [a for a in NAMES if a not in assets][0]
-            for x in gen_prices(rng, rng.randint(1, 5)):
+            if rng.random() < 0.5:
+                ops += [['call', late, lb] for lb in lbs]          # read before the asset has any price (and so no buffer yet)
+            for x in gen_prices(rng, rng.choice([1, 3, 5, 12, 40])):
                 ops.append(['append', late, x])
                 ops += [['call', late, lb] for lb in lbs]
         return dict(kind='stream', sig=sig, lookbacks=lbs, assets=assets, ops=ops)
